@@ -35,9 +35,22 @@ class Ctx:
         self.failures = []
         self.notes = []
         self.exhaustive = False
+        self._shrunk = set()
 
     def bump(self, key, by=1):
         self.stats[key] = self.stats.get(key, 0) + by
+
+    def fail(self, f, shrink=None, cap=4):
+        """record a failure; only the first failure of a signature (and at most `cap` in all) is shrunk, so a
+        badly broken tree does not spend its time minimising hundreds of equivalent failures"""
+        sig = f.get("signature")
+        if shrink is not None and sig not in self._shrunk and len(self._shrunk) < cap:
+            self._shrunk.add(sig)
+            try:
+                f = shrink(f)
+            except Exception:  # noqa: BLE001
+                pass
+        self.failures.append(f)
 
     def sample(self, x, cap=4):
         if len(self.samples) < cap:
